@@ -220,8 +220,11 @@ class ExplicitFuncComp(ExplicitComponent):
                         j[start:end, :] = a
                     start = end
             else:
+                jvps = jac_forward(func, argnums, tangents)(*invals)
+                if not isinstance(jvps, (tuple, list)):
+                    jvps = (jvps,)  # a single output is returned as a bare array
                 j = [np.asarray(a).reshape((shape_to_len(a.shape[:-1]), a.shape[-1]))
-                     for a in jac_forward(func, argnums, tangents)(*invals)]
+                     for a in jvps]
                 j = coloring._expand_jac(np.vstack(j), 'fwd').toarray()
 
         self._get_jacobian().set_dense_jac(self, j)
